@@ -122,6 +122,20 @@ def run(pid, jobs=None):
             print("sensitivity sweep property=%s sampled %d of %d mutants: %s" % (pid, sweep["sampled"], sweep["mutants_available"], sweep["counts"]))
     except Exception as e:
         print("sensitivity sweep skipped: %s" % e)
+    # false-alarm sweep: a seeded sample of automatically generated BEHAVIOUR-PRESERVING rewrites of the anchored functions; a check that
+    # reports a violation on one of them is broken (self-test failure), exit 2 on one is tolerated and counted
+    psweep = None
+    try:
+        if anchors:
+            from . import preserve
+            seed = int(os.environ.get("VERIF_SEED", "0") or 0)
+            kk = int(os.environ.get("TMVERIF_PSWEEP", "12" if pid == "C13" else "40"))
+            psweep = preserve.sample_sweep(pid, anchors, k=kk, seed=seed)
+            print("false-alarm sweep property=%s sampled %d of %d preserving rewrites: %s" % (pid, psweep["sampled"], psweep["rewrites_available"], psweep["counts"]))
+            for fa in psweep["false_alarms"]:
+                misses.append(("preserving-rewrite", "HOLDS", fa[:300]))
+    except Exception as e:
+        print("false-alarm sweep skipped: %s" % e)
     # fold into the evidence file written by the property run
     path = os.path.join(core.EVIDENCE, pid + ".json")
     try:
@@ -129,6 +143,9 @@ def run(pid, jobs=None):
         ev["tier"] = "thorough"
         ev["coverage"]["selftest"] = summary
         ev["coverage"]["sensitivity_sweep"] = sweep
+        ev["coverage"]["false_alarm_sweep"] = psweep
+        if psweep:
+            ev["coverage"]["evaluations"] = ev["coverage"].get("evaluations", 0) + psweep["sampled"]
         if sweep:
             ev["coverage"]["evaluations"] = ev["coverage"].get("evaluations", 0) + sweep["sampled"]
         ev["coverage"]["evaluations"] = ev["coverage"].get("evaluations", 0) + len(cases) - skipped
